@@ -872,4 +872,23 @@ package evaluator
 //@   loop 1 step called(prev(ncalls), evaluator.unpackArrExpansion) && arg1(prev(ncalls)) == node.Elems[rangeindex] && arg2(prev(ncalls)) == env
 //@   loop 1 step ncalls == prev(ncalls) + 2 ==> called(prev(ncalls) + 1, evaluator.Eval) && arg1(prev(ncalls) + 1) == node.Elems[rangeindex] && arg2(prev(ncalls) + 1) == env && !isT(result(prev(ncalls) + 1), *object.PanErr) && len(elems) == prev(len(elems)) + 1 && elems[prev(len(elems))] == result(prev(ncalls) + 1)
 //@   loop 1 step len(elems) >= prev(len(elems)) && (forall i int :: {elems[i]} 0 <= i && i < prev(len(elems)) ==> elems[i] == prev(elems[i]))
+//
+// recv.prop(args): the receiver is evaluated first, then the chain argument (if there is one), then the arguments;
+// the first of them to fail ends the evaluation
+//@ props C08 C07
+// _evalPropCall merges the selected middlewares around propCallHandler and calls the result once (two lines; its
+// pieces - the selectors, the merge closure, each middleware, evalCall - are under their own contracts). Trusted here.
+//@ func evaluator._evalPropCall(env, recv, chainArg, propName, args, kwargs, middlewares) res
+//@   trusted
+//@   ensures  res != nil
+//@   assigns  EC
+//@ func evaluator.evalPropCall(node, env) res
+//@   requires node != nil && env != nil
+//@   ensures  ncalls >= 1 && called(0, evaluator.extractRecv) && arg1(0) == node.Receiver && arg2(0) == env
+//@   ensures  result2(0) != nil ==> ncalls == 1
+//@   ensures  result2(0) == nil && node.Chain.Arg != nil ==> ncalls >= 2 && called(1, evaluator.Eval) && arg1(1) == node.Chain.Arg && arg2(1) == env
+//@   ensures  result2(0) == nil && node.Chain.Arg != nil && isT(result(1), *object.PanErr) ==> ncalls == 2
+//@   ensures  result2(0) == nil && node.Chain.Arg != nil && !isT(result(1), *object.PanErr) ==> ncalls >= 3 && called(2, evaluator.evalCallArgs) && arg1(2) == node && arg2(2) == env
+//@   ensures  result2(0) == nil && node.Chain.Arg == nil ==> ncalls >= 2 && called(1, evaluator.evalCallArgs) && arg1(1) == node && arg2(1) == env
+//@   assigns  EC
 
